@@ -186,7 +186,9 @@ def converged (h : List Ev) : Option String :=
 /-- C03: every acknowledged command is in the final FSM of every server that has applied up to its
     index (a server still catching up is C12's business, not a loss) -/
 def ackedSurvive (h : List Ev) : Option String :=
-  let acked := ((calls h).filter (fun c => c.2.2.2.1 == 0 && c.2.2.2.2.2.2.2.1 == 0)).map (fun c => (c.2.2.2.2.1, c.2.2.2.2.2.2.2.2.1))
+  -- a user Restore is an epoch boundary: what was acknowledged before it is replaced by design
+  let epoch := (h.findSome? (fun e => match e with | .restore _ _ _ t1 true _ _ _ => some t1 | _ => none)).getD 0
+  let acked := ((calls h).filter (fun c => c.2.2.2.1 == 0 && c.2.2.2.2.2.2.2.1 == 0 && c.2.2.2.2.2.1 ≥ epoch)).map (fun c => (c.2.2.2.2.1, c.2.2.2.2.2.2.2.2.1))
   (finalStates h).findSome? (fun s =>
     match acked.find? (fun pi => pi.2 ≤ s.2.1 && !(s.2.2.contains pi.1)) with
     | some pi => some s!"acknowledged-command-{pi.1}-missing-from-fsm-of-{s.1}"
